@@ -181,7 +181,11 @@ def parse_dump(dump):
 def w_tlc(case):
     res = mkres()
     try:
-        rc, out, dump = run_tlc(case['kinds'], case['maximages'], case['maxdrive'])
+        try:
+            rc, out, dump = run_tlc(case['kinds'], case['maximages'], case['maxdrive'])
+        except subprocess.TimeoutExpired:
+            res['incomplete'] = True        # a cap, not a verdict: reported as exhaustive=false for this family
+            return res
         m = re.search(r'(\d+) states generated, (\d+) distinct states found', out)
         if rc != 0 or 'No error has been found' not in out or not m:
             res['viol'].append(('C16:tlc:model-invariant-or-run-failed', out[-800:]))
@@ -469,6 +473,8 @@ def main(tier, seed):
             states.update(res.get('states', []))
             transitions += res.get('transitions', 0)
             patterns = max(patterns, res.get('patterns', 0))
+            if res.get('incomplete'):
+                run.Deadline.hit = True
             if res.get('tlc'):
                 tlcinfo = res['tlc']
                 validated += res['tlc']['validated']
